@@ -156,6 +156,7 @@ structure UpdOk (s s' : State) (id : PoolId) (p p' : Pool) (amount : Int) (isDes
   params   : s'.params = s.params
   ledger   : s'.ledger = s.ledger
   resp     : s'.resp = s.resp
+  cp       : s'.cp = s.cp
   supply   : s'.bank.supply = s.bank.supply
   farm     : ∀ d, s'.bank.balOf farmAcc d + (C05.remainingIn d p.rules - C05.remainingIn d p'.rules) = s.bank.balOf farmAcc d
   remLe    : ∀ d, C05.remainingIn d p'.rules ≤ C05.remainingIn d p.rules
@@ -197,7 +198,7 @@ theorem updatePool_ok {s s' : State} {id : PoolId} {p p' : Pool} {amount : Int} 
                  rules := by rw [hrules]; exact Or.inr ⟨hi, hrel.2, hf2⟩,
                  relIff := ?_, pools := ?_, farmers := by rw [hs']; rfl, queue := by rw [hs']; rfl,
                  height := by rw [hs']; rfl, seq := by rw [hs']; rfl, params := by rw [hs']; rfl,
-                 ledger := by rw [hs']; rfl, resp := by rw [hs']; rfl, supply := by rw [hs']; rfl,
+                 ledger := by rw [hs']; rfl, resp := by rw [hs']; rfl, cp := by rw [hs']; rfl, supply := by rw [hs']; rfl,
                  farm := ?_, remLe := ?_, coll := ?_, others := ?_ }
         · constructor
           · intro e
@@ -237,7 +238,7 @@ theorem updatePool_ok {s s' : State} {id : PoolId} {p p' : Pool} {amount : Int} 
                      rules := by rw [hrules]; exact Or.inr ⟨hi, hrel.2, hf2⟩,
                      relIff := ?_, pools := ?_, farmers := by rw [hs']; rfl, queue := by rw [hs']; rfl,
                      height := by rw [hs']; rfl, seq := by rw [hs']; rfl, params := by rw [hs']; rfl,
-                     ledger := by rw [hs']; rfl, resp := by rw [hs']; rfl,
+                     ledger := by rw [hs']; rfl, resp := by rw [hs']; rfl, cp := by rw [hs']; rfl,
                      supply := ?_, farm := ?_, remLe := ?_, coll := ?_, others := ?_ }
             · constructor
               · intro e
@@ -280,7 +281,7 @@ theorem updatePool_ok {s s' : State} {id : PoolId} {p p' : Pool} {amount : Int} 
             rules := Or.inl hrules, relIff := ⟨fun _ => hrel, fun _ => hrules⟩,
             pools := by rw [hs']; rfl, farmers := by rw [hs']; rfl, queue := by rw [hs']; rfl,
             height := by rw [hs']; rfl, seq := by rw [hs']; rfl, params := by rw [hs']; rfl,
-            ledger := by rw [hs']; rfl, resp := by rw [hs']; rfl, supply := by rw [hs']; rfl,
+            ledger := by rw [hs']; rfl, resp := by rw [hs']; rfl, cp := by rw [hs']; rfl, supply := by rw [hs']; rfl,
             farm := by intro d; rw [hrules, hs']; simp [setPool],
             remLe := by intro d; rw [hrules]; exact Nat.le_refl _,
             coll := by intro d; rw [hrules, hs']; simp [setPool],
